@@ -70,6 +70,14 @@ theorem aux_mixture_invariant {X Sg : Type} [Fintype X] [Fintype Sg] [DecidableE
     ∑ x, π x * (∑ s, u x s * P s x y) = π y :=
   Moves.aux_mixture_invariant π u P hu hP y
 
+/-- non-vacuity: two states, two orders, everything uniform — the hypotheses hold (the PhyClone
+instance `pg_invariant_abstract` below is the instance that matters) -/
+example : (∀ _x : Bool, (1 : ℚ) ≠ 0 → ∑ _s : Bool, (1 / 2 : ℚ) = 1) ∧
+    (∀ _s y : Bool, ∑ _x : Bool, ((1 : ℚ) * (1 / 2)) * (1 / 2) = (fun _ : Bool => (1 : ℚ)) y * (1 / 2)) := by
+  constructor
+  · intro _ _; simp
+  · intro _ _; simp
+
 /-- **Stage 1: the PhyClone instance satisfies the hypotheses of `csmc_invariant`.**  For a data
 set with positive likelihoods, `α > 0`, outlier proposal probability in `[0,1)`, any of the three
 proposals, with or without a permutation distribution, a fixed order `σ` of distinct data points
